@@ -363,7 +363,11 @@ class Facts:
                         roots.append(('local', p2['l'], f2 + flds))
                 elif rv[0] == 'agg':
                     roots.append(('agg', rv[1]))
-                    for o in rv[2]:
+                    ops = rv[2]
+                    if rv[1][0] == 'tuple' and flds and flds[0].isdigit() and int(flds[0]) < len(ops):
+                        # field-sensitive for tuples: `_t.1` depends on the second operand only
+                        ops = [ops[int(flds[0])]]
+                    for o in ops:
                         roots.extend(self.trace(path, o, depth + 1, seen, deep))
                 elif rv[0] == 'binop':
                     roots.append(('binop', rv[1]))
